@@ -225,9 +225,23 @@ class NDrop(nnx.Module):
     return self.lin(x) + jax.random.uniform(key, ())
 
 
+class NSelfSeeded(nnx.Module):
+  """Takes no `rngs` argument (ToLinen(skip_rng=True)): creates its own
+  streams and draws from them when called."""
+
+  def __init__(self, d):
+    r = nnx.Rngs(params=3, dropout=5)
+    self.lin = NLinear(d, d, r)
+    self.rngs = r
+
+  def __call__(self, x):
+    key = self.rngs.dropout()
+    return self.lin(x) + jax.random.uniform(key, ())
+
+
 @clause('to_linen',
         strategy=lambda: st.fixed_dictionaries({
-            'cls': st.sampled_from(['linear', 'norm', 'drop']),
+            'cls': st.sampled_from(['linear', 'norm', 'drop', 'selfseed']),
             'd': st.integers(1, 3), 'calls': st.integers(1, 3),
             'mutable': st.sampled_from([[], ['batch_stats'],
                                         ['batch_stats', 'Count']]),
@@ -235,7 +249,9 @@ class NDrop(nnx.Module):
         quick=150, thorough=5000, quick_shards=10, thorough_shards=16,
         shrink=False,
         rule='NNX classes (linear, a stateful normaliser with BatchStat + '
-        'counter Variables, an rng user) wrapped with bridge.to_linen, '
+        'counter Variables, an rng user, an rng user that takes no rngs '
+        'argument and is wrapped with skip_rng=True) wrapped with '
+        'bridge.to_linen / ToLinen, '
         'standalone or inside a Linen parent: init exposes each Variable under '
         'the collection named after its type (+ the nnx graphdef); apply on '
         'the variables equals the NNX module holding the same state; state '
@@ -246,15 +262,21 @@ def to_linen(case, ctx):
   rng = np.random.default_rng(seed)
   x = jnp.asarray(rng.normal(size=(3, d)), jnp.float32)
   cls, args = {'linear': (NLinear, (d, d)), 'norm': (NNorm, (d,)),
-               'drop': (NDrop, (d,))}[case['cls']]
+               'drop': (NDrop, (d,)), 'selfseed': (NSelfSeeded, (d,))}[
+                   case['cls']]
+  skip = case['cls'] == 'selfseed'
+  def wrap(name):
+    if skip:
+      return bridge.ToLinen(cls, args=args, skip_rng=True, name=name)
+    return bridge.to_linen(cls, *args, name=name)
   with sut('to_linen'):
-    lm = bridge.to_linen(cls, *args, name='wrapped' if case['nested'] else None)
+    lm = wrap('wrapped' if case['nested'] else None)
   if case['nested']:
     inner = lm
     class LParent(nn.Module):
       @nn.compact
       def __call__(self, xx):
-        return bridge.to_linen(cls, *args, name='wrapped')(xx) * 2.0
+        return wrap('wrapped')(xx) * 2.0
     lm = LParent()
   keys = {'params': jax.random.key(seed), 'dropout': jax.random.key(seed + 1)}
   with sut('init'):
@@ -262,7 +284,8 @@ def to_linen(case, ctx):
   top = V if not case['nested'] else {c: V[c]['wrapped'] for c in V}
   expect_cols = {'linear': {'params', 'nnx'},
                  'norm': {'params', 'batch_stats', 'Count', 'nnx'},
-                 'drop': {'params', 'nnx'} }[case['cls']]
+                 'drop': {'params', 'nnx'},
+                 'selfseed': {'params', 'nnx'}}[case['cls']]
   got_cols = {c for c in top if L.flat(top[c]) or c == 'nnx'}
   rng_cols = {c for c in got_cols if c not in expect_cols}
   require(expect_cols <= got_cols, lambda: f'init collections {sorted(top)}, '
@@ -281,8 +304,8 @@ def to_linen(case, ctx):
   require(isinstance(bbox, meta.AxisMetadata) and bbox.metadata.get('note')
           == 'bias', 'metadata of Variable b was lost going NNX -> Linen')
   # reference NNX module holding the same state
-  ref = cls(*args, rngs=nnx.Rngs(params=keys['params'],
-                                 dropout=keys['dropout']))
+  ref = cls(*args) if skip else cls(*args, rngs=nnx.Rngs(
+      params=keys['params'], dropout=keys['dropout']))
   ref.lin_w = None
   del ref.lin_w
   def load(mod, variables):
@@ -310,7 +333,7 @@ def to_linen(case, ctx):
     # NNX reference: same state; updates only kept for mutable collections
     before = {p: np.asarray(v.value) for p, v in statelib.to_flat_state(
         nnx.state(ref)) if not issubclass(v.type, nnx.RngState)}
-    if case['cls'] == 'drop':
+    if case['cls'] in ('drop', 'selfseed'):
       # ToLinen reseeds the NNX streams with make_rng(name) of its own scope:
       # fold_in_static(key, path + (1,)) (documented Linen derivation, C09)
       import hashlib
